@@ -3,6 +3,7 @@
    [ok]/[m] are the glob engine (gobwas/glob with separator '/'): "pattern compiles" and "matches";
    they are universally quantified, nothing is assumed about them. *)
 From Regal Require Import Model.Exclude Proofs.Exclude.
+From Regal Require Import Model.ExcludeWalk Model.Provider Proofs.ExcludeWalk.
 
 (* ---- 1. the two pattern expansions (Go excludeFile, Rego _pattern_compiler) *)
 
@@ -229,6 +230,54 @@ Theorem c05_spelling_relative_elsewhere_refuted :
 Proof. exact spelling_relative_elsewhere_refuted. Qed.
 Print Assumptions c05_spelling_relative_elsewhere_refuted.
 
+(* ---- 9. directory arguments: the patterns apply to the path RELATIVE to the project root only.
+   FilterIgnoredPaths with checkFileExists walks the directory it is given (Model/Discover.v [walk]: the .rego
+   files, pruning .git/.idea/node_modules) and filters what it found (Model/ExcludeWalk.v [go_walk_filter]).
+   The directory is given by a clean absolute path [cpath ps] = "/" ++ ps1 ++ "/" ++ ... ++ "/" ++ psn (Model/Provider.v;
+   [regular]: a non-empty component without separator other than "." and ".."), every entry of the tree has a regular
+   name, the prefix is that directory (with or without trailing separator: [is_root_prefix]).
+   [rel_walk name t] lists the same files by their names relative to the directory; it does not mention [ps] at all. *)
+
+(* which files are kept is decided by matching their root-relative names against the patterns with an EMPTY prefix;
+   the path of the root -- its own name and the names of all directories above it -- only reappears in front of the
+   result: neither the root nor an ancestor is ever handed to a matcher *)
+Theorem c05_walk_root_never_excluded :
+  forall ok m (skips : list str) (ext : str), ~ In SLASH ext ->
+  forall (ps : list str) (name : str) (chs : list (str * node)) (ignore : list str) (pre : str),
+    Forall regular ps -> ps <> [] -> names_regular (Dir chs) -> is_root_prefix (cpath ps) pre ->
+    go_walk_filter ok m skips ext (cpath ps) name (Dir chs) ignore pre
+    = option_map (map (fun r => cpath ps ++ SLASH :: r))
+                 (go_filter_paths ok m (rel_walk skips ext name (Dir chs)) ignore []).
+Proof. exact walk_root_never_excluded. Qed.
+Print Assumptions c05_walk_root_never_excluded.
+
+(* changing the names of the root and of its ancestors (any number of them) never changes the set of discovered
+   root-relative paths, nor whether the call fails; only a root that is itself a skipped directory differs *)
+Theorem c05_ancestors_irrelevant :
+  forall ok m (skips : list str) (ext : str), ~ In SLASH ext ->
+  forall (ps ps' : list str) (name name' : str) (chs : list (str * node)) (ignore : list str) (pre pre' : str),
+    Forall regular ps -> ps <> [] -> Forall regular ps' -> ps' <> [] ->
+    names_regular (Dir chs) ->
+    is_skip skips name = is_skip skips name' ->
+    is_root_prefix (cpath ps) pre -> is_root_prefix (cpath ps') pre' ->
+    option_map (map (fun f => go_rel f pre)) (go_walk_filter ok m skips ext (cpath ps) name (Dir chs) ignore pre)
+    = option_map (map (fun f => go_rel f pre')) (go_walk_filter ok m skips ext (cpath ps') name' (Dir chs) ignore pre').
+Proof. exact ancestors_irrelevant. Qed.
+Print Assumptions c05_ancestors_irrelevant.
+
+(* where every expansion compiles: kept = the walked files whose root-relative name matches no pattern
+   ("a file matching no pattern is never dropped", for directory arguments) *)
+Theorem c05_walk_kept_exact :
+  forall ok m (skips : list str) (ext : str), ~ In SLASH ext ->
+  forall (ps : list str) (name : str) (chs : list (str * node)) (ignore : list str) (pre : str),
+    Forall regular ps -> ps <> [] -> names_regular (Dir chs) -> is_root_prefix (cpath ps) pre ->
+    (forall p, In p ignore -> p <> [] -> compiles ok p = true) ->
+    go_walk_filter ok m skips ext (cpath ps) name (Dir chs) ignore pre
+    = Some (map (fun r => cpath ps ++ SLASH :: r)
+                (filter (fun r => negb (matches_any ok m ignore r)) (rel_walk skips ext name (Dir chs)))).
+Proof. exact walk_kept_exact. Qed.
+Print Assumptions c05_walk_kept_exact.
+
 (* ---- non-vacuity: concrete values satisfying the hypotheses (literal engine: a pattern
         matches exactly the name equal to it) *)
 
@@ -273,3 +322,30 @@ Example ex_lsp :
   lsp_ignore_uri lit_ok lit_match root [[97] ++ dot_rego] u = true
   /\ lsp_filtered_modules lit_ok lit_match root [[97] ++ dot_rego] [u] = Some [].
 Proof. split; reflexivity. Qed.
+
+(* the project /build/proj holds .git/g.rego, a.rego, build/c.rego and data.json; literal engine, ignore ["a.rego"]:
+   .git is pruned, data.json is no rego file, a.rego is dropped, build/c.rego is kept; the root's own path contains
+   "build" and is never looked at *)
+Definition ex_tree : list (str * node) :=
+  [([46;103;105;116], Dir [([103;46;114;101;103;111], File)]);            (* .git/g.rego *)
+   ([97;46;114;101;103;111], File);                                       (* a.rego *)
+   ([98;117;105;108;100], Dir [([99;46;114;101;103;111], File)]);         (* build/c.rego *)
+   ([100;97;116;97;46;106;115;111;110], File)]%N.                         (* data.json *)
+Definition ex_build : str := [98;117;105;108;100]%N.
+Definition ex_proj : str := [112;114;111;106]%N.
+
+Example ex_walk :
+  names_regular (Dir ex_tree)
+  /\ rel_walk spec_skips spec_ext ex_proj (Dir ex_tree)
+     = [[97;46;114;101;103;111]; [98;117;105;108;100;47;99;46;114;101;103;111]]%N
+  /\ go_walk_filter lit_ok lit_match spec_skips spec_ext (cpath [ex_build; ex_proj]) ex_proj (Dir ex_tree)
+                    [[97;46;114;101;103;111]]%N (cpath [ex_build; ex_proj])
+     = Some [cpath [ex_build; ex_proj; ex_build; [99;46;114;101;103;111]%N]]
+  /\ is_root_prefix (cpath [ex_build; ex_proj]) (cpath [ex_build; ex_proj] ++ [SLASH])
+  /\ ~ In SLASH spec_ext.
+Proof.
+  split.
+  { constructor. repeat constructor; cbn; try discriminate; intuition discriminate. }
+  split; [vm_compute; reflexivity|]. split; [vm_compute; reflexivity|]. split; [right; reflexivity|].
+  cbn. intuition discriminate.
+Qed.
